@@ -10,8 +10,9 @@ CONSTANTS
   WriteFs = {0, 15}
   Vers = {16, 32}
   CkOks = {TRUE, FALSE}
-  Rfus = {0, 5}
+  Rfus = {5}
   MsgKinds = {"a", "z"}
+  Cards = {100, 320}
   WithCut = TRUE
   WithFormat = TRUE
 INVARIANT TypeOK
